@@ -1,7 +1,7 @@
 (* C04 -- Motions and kills cover exactly the grapheme, word, line or search
    range named. Property theorems only (the clauses without a theorem are
    decided by the oracle over the correspondence stream, see MANIFEST). *)
-From RL Require Import UData Uax29 LineBuffer LineBufferOps LineBufferProofs LineBufferTotal LineBufferRanges.
+From RL Require Import UData Uax29 LineBuffer LineBufferOps LineBufferProofs LineBufferTotal LineBufferRanges LineBufferAll KillCopy.
 
 (* character motion by a count n >= 1 from a character boundary lands exactly
    after the first min(n, remaining) whole clusters *)
@@ -46,6 +46,22 @@ Theorem C04_end_of_line : forall b l r, buf b = l ++ r -> pos b = blen l ->
                /\ (r' = [] \/ exists r'', r' = LF :: r'').
 Proof. exact end_of_line_ok. Qed.
 Print Assumptions C04_end_of_line.
+
+(* A KILL REMOVES EXACTLY WHAT A COPY WITH THE SAME MOVEMENT RETURNS -- for EVERY movement (characters and words with
+   any count / word definition / anchor, character searches on / before / after the n-th occurrence, line start / end,
+   first printable, whole line, line ranges up / down, buffer start / end, whole buffer), every buffer and cursor on a
+   character boundary: if copy returns t, then kill succeeds, t lay in the text, after the kill exactly t is gone,
+   nothing else changed, and the cursor stands where t began. Hypotheses: the segmentation partitions the text into
+   non-empty clusters (true of the model's UAX #29 segmentation). *)
+Theorem C04_kill_is_copy : forall (seg : str -> list str),
+  (forall s, concat (seg s) = s) -> (forall s g, In g (seg s) -> g <> []) ->
+  forall (U : UData) (m : movement) (b : lb) (t : str),
+  wf b -> copy U seg b m = Ok (Some t) ->
+  exists r b' ev, kill U seg m b = Ok (r, b', ev)
+                  /\ r = true
+                  /\ exists l r', buf b = l ++ t ++ r' /\ buf b' = l ++ r' /\ pos b' = blen l /\ cap b' = cap b /\ grow b' = grow b.
+Proof. exact kill_is_copy. Qed.
+Print Assumptions C04_kill_is_copy.
 
 (* KNOWN FINDING K_word_count (see known_findings.json): a word motion with a
    count is not the single motion iterated -- "a b,c", `2w` vs `w w` *)
